@@ -1037,6 +1037,17 @@ func (c *Conn) closeWithError(err error) error {
 func (c *Conn) closeWithErrorWithoutLock(err error) error {
 	c.closeErr = err
 
+	// A dial that is still pending fails with the reason of the close
+	// (refused, dial timeout, Stop, ...): report it, exactly once.
+	if onConnected := c.onConnected; onConnected != nil {
+		c.onConnected = nil
+		if err == nil {
+			onConnected(c, net.ErrClosed)
+		} else {
+			onConnected(c, err)
+		}
+	}
+
 	if c.writeList != nil {
 		for _, t := range c.writeList {
 			c.releaseToWrite(t)
@@ -1057,6 +1068,41 @@ func (c *Conn) closeWithErrorWithoutLock(err error) error {
 	}
 
 	return err
+}
+
+// dialed is called by the poller when a dialing connection becomes writable:
+// the outcome of the non-blocking connect is in SO_ERROR.
+//
+//go:norace
+func (c *Conn) dialed() {
+	soerr, err := syscall.GetsockoptInt(c.fd, syscall.SOL_SOCKET, syscall.SO_ERROR)
+	if err == nil && soerr != 0 {
+		err = syscall.Errno(soerr)
+	}
+	if err != nil {
+		// The close path reports the failure to the dial callback.
+		_ = c.closeWithError(err)
+		return
+	}
+
+	c.mux.Lock()
+	if c.closed {
+		// Closed meanwhile (timeout, Stop): the close path reports.
+		c.mux.Unlock()
+		return
+	}
+	onConnected := c.onConnected
+	c.onConnected = nil
+	c.mux.Unlock()
+
+	if onConnected != nil {
+		onConnected(c, nil)
+		// the callback may have left data to be
+		// flushed: resetRead keeps the writing event then.
+		c.mux.Lock()
+		c.resetRead()
+		c.mux.Unlock()
+	}
 }
 
 // NBConn converts net.Conn to *Conn.
